@@ -309,3 +309,32 @@ def run(ctx):
     except KeyError as e:
         ctx.lost("R17.5", str(e))
 
+
+
+    # ---------------------------------------------------------------- R17.6
+    # "the engine applies the caller's limit unchanged on OpenPosition trades that reduce a position": the branch that
+    # forwards the limit (the reducing SwapInput) is chosen by comparing the position's current SPOT notional - the quote
+    # the vAMM will execute at - with the order; a TWAP / blended valuation would send a genuine reduction down the
+    # reversing branch, which swaps the whole position out with no limit
+    from .c02 import reduce_decision_instance
+    ctx.rule("R17.6", "the reduce-vs-reverse decision (which selects the limit-carrying swap) compares the position's spot notional with the order notional", 1)
+    reduce_decision_instance(ctx, "R17.6")
+
+    # ---------------------------------------------------------------- R17.7
+    # "the swap moves exactly the requested amount on the requested side": every success path of both swap arms stores
+    # the updated State (a store skipped when, say, the base leg rounds to zero leaves the quote reserve where it was
+    # although the swap reports it as moved)
+    ctx.rule("R17.7", "every success path of SwapInput / SwapOutput stores the updated vAMM State (unconditionally)", 2)
+    for xvar in ("SwapInput", "SwapOutput"):
+        try:
+            xa7 = arms.Arm(ix, VAMM, xvar)
+        except KeyError as e:
+            ctx.lost("R17.7", str(e))
+            continue
+        bad7 = None
+        n7 = 0
+        for q in xa7.ok_paths():
+            n7 += 1
+            if not any(ix.must_write_item(e7, "margined_vamm:state") for e7 in q.events):
+                bad7 = bad7 or "a success path does not (unconditionally) store the State"
+        ctx.inst("R17.7", "state-stored:%s" % xvar, bad7 is None and n7 > 0, xa7.fn.where(), bad7 or "%d success paths, each stores the State" % n7)
